@@ -63,7 +63,8 @@ func drawConfig(t *rapid.T, label string) config {
 	c.class = rapid.SampledFrom(classes).Draw(t, label+"class")
 	switch c.class {
 	case "default":
-		c.nbTasks = rapid.SampledFrom([]int{0, 0, -1, -16, math.MinInt32}).Draw(t, label+"nb")
+		// "not set" is NbTasks <= 0: zero and negative values, small and extreme
+		c.nbTasks = rapid.SampledFrom([]int{0, 0, -1, -1, -2, -16, -1000, math.MinInt32, math.MinInt64}).Draw(t, label+"nb")
 	case "sem":
 		c.nbTasks = rapid.IntRange(1, ncpu-1).Draw(t, label+"nb")
 	default:
@@ -204,6 +205,12 @@ func labelsFor(cs *msmCase, ms multiset, cfg config, withStats bool) callLabels 
 	var out callLabels
 	add := func(s string) { out.classes = append(out.classes, s) }
 	add("nbtasks:" + cfg.class)
+	if cfg.nbTasks < 0 {
+		add("nbtasks:negative")
+		add(fmt.Sprintf("nbtasks:negative/%s/%s%s", cs.cx.ad.GName(), cs.entry, recvName[cfg.recv]))
+	} else if cfg.nbTasks == 0 {
+		add("nbtasks:zero")
+	}
 	add(fmt.Sprintf("gomaxprocs:%d", cfg.gmp))
 	add("recv:" + recvName[cfg.recv])
 	add("scalars:" + cs.scClass)
@@ -526,6 +533,7 @@ func propFold(t *rapid.T, ad adapter) {
 		pw.Mod(pw, cx.r)
 	}
 	cs.scClass = "fold:" + kind
+	cs.entry = "fold_"
 	cs.build()
 	want := cx.point(cs.exp)
 	desc := cs.describe() + " Fold coeff=" + coeff.Text(16)
